@@ -378,7 +378,15 @@ def terminal_facts(prog, lv, entry, first):
         flat = []
         for c, pol in conds:
             flat += q.conds([("if", c, pol)])
-        single = any(pol and (t == one or (t[0] == "bin" and t[1] == "==" and {t[2], t[3]} == {one[2], one[3]})) for t, pol in flat)
+        is_one = lambda t: t == one or (t[0] == "bin" and t[1] == "==" and {t[2], t[3]} == {one[2], one[3]})       # noqa: E731
+        single = any(pol and is_one(t) for t, pol in flat)
+        if not single:
+            # the same fact as a consequence of the conditions on the way (e.g. `!is_empty` and `!( !is_empty && len != 1 )`)
+            cls = []
+            for c, pol in conds:
+                cls += terms.to_clauses(c, pol)
+            pr = terms.propagate_clauses([], cls)
+            single = pr is not None and any(pol and is_one(t) for t, pol in pr[0])
         if not single:
             facts["problems"].append(f"a formula is produced ({pt(leaf)[:60]}) without the slice having exactly one token")
         lc = PS.level_call(prog, f, leaf)
@@ -398,7 +406,34 @@ def terminal_facts(prog, lv, entry, first):
         name = last(mk[1])
         facts["atoms"].setdefault(name, []).append((flat, mk))
         if name == "mk_constant" and mk[2] and mk[2][0][0] == "lit" and isinstance(mk[2][0][1], bool):
-            # the spellings: string literals the token's name is compared with on the way here
+            # the spellings: the string literals the token's name is compared with on the way here for which every condition of the
+            # path holds (evaluated with the name replaced by the literal)
+            lits_, names_ = set(), []
+            for t, pol in flat:
+                for y in [t] + list(subterms(t)):
+                    if y[0] == "bin" and y[1] == "==":
+                        for a_, b_ in ((y[2], y[3]), (y[3], y[2])):
+                            if a_[0] == "lit" and isinstance(a_[1], str) and b_[0] != "lit":
+                                lits_.add(a_[1])
+                                if b_ not in names_:
+                                    names_.append(b_)
+            if len(names_) == 1 and any(not pol for _, pol in flat):
+                nz_ = norm.Normalizer()
+                for n_ in sorted(lits_):
+                    holds = True
+                    for t, pol in flat:
+                        v_ = nz_(terms.replace(t, names_[0], ("lit", n_)))
+                        if mentions_lit_eq(v_):
+                            v_ = fold_lit_eq(v_, nz_)
+                        if not (v_[0] == "lit" and isinstance(v_[1], bool)):
+                            if terms.contains(t, lambda z: z == names_[0]):
+                                holds = False
+                            continue
+                        if v_[1] != bool(pol):
+                            holds = False
+                    if holds:
+                        facts["consts"][mk[2][0][1]].add(n_)
+                continue
             for t, pol in flat:
                 if not pol:
                     continue
@@ -413,6 +448,18 @@ def terminal_facts(prog, lv, entry, first):
                             if d[0] == "lit" and isinstance(d[1], str):
                                 facts["consts"][mk[2][0][1]].add(d[1])
     return facts
+
+
+def mentions_lit_eq(t):
+    return any(y[0] == "bin" and y[1] in ("==", "!=") and y[2][0] == "lit" and y[3][0] == "lit" for y in [t] + list(subterms(t)))
+
+
+def fold_lit_eq(t, nz):
+    """Comparisons between two literals decided."""
+    for y in [t] + list(subterms(t)):
+        if y[0] == "bin" and y[1] in ("==", "!=") and y[2][0] == "lit" and y[3][0] == "lit":
+            t = terms.replace(t, y, ("lit", (y[2][1] == y[3][1]) == (y[1] == "==")))
+    return nz(t)
 
 
 def check_terminal(prog, rep, lv, entry, first):
